@@ -9,10 +9,10 @@
 (***************************************************************************)
 EXTENDS Integers, Sequences, TLC, Json
 
-ASTFormat  == [ser : {"AST.Format"}, case : {"preserve", "upper", "lower"}, tabs : BOOLEAN, width : {0, 2, 4},
+ASTFormat  == [ser : {"AST.Format"}, case : {"preserve", "upper", "lower"}, tabs : BOOLEAN, width : {-2, 0, 2, 4},
                perClause : BOOLEAN, semicolon : BOOLEAN, lineWidth : {0, 80}]
-GosqlxFmt  == [ser : {"gosqlx.Format"}, indent : {0, 2, 4}, upper : BOOLEAN, semicolon : BOOLEAN, limit : {0, 80}]
-PkgFmt     == [ser : {"formatter.Format"}, indent : {0, 2, 4}, upper : BOOLEAN, compact : BOOLEAN]
+GosqlxFmt  == [ser : {"gosqlx.Format"}, indent : {-2, 0, 2, 4}, upper : BOOLEAN, semicolon : BOOLEAN, limit : {0, 80}]
+PkgFmt     == [ser : {"formatter.Format"}, indent : {-2, 0, 2, 4}, upper : BOOLEAN, compact : BOOLEAN]
 CliFmt     == [ser : {"cli.SQLFormatter"}, indent : {"  ", "\t", "    "}, compact : BOOLEAN, upper : BOOLEAN, align : BOOLEAN]
 Plain      == [ser : {"AST.SQL"}]
 All == ASTFormat \cup GosqlxFmt \cup PkgFmt \cup CliFmt \cup Plain
